@@ -5,7 +5,7 @@ D=$1; TIER=${2:-quick}
 PROP=$(basename "$D" | cut -d- -f1)
 cd /repo || exit 9
 if [ -n "$(git status --porcelain)" ]; then echo "REPO DIRTY"; exit 9; fi
-git apply "$OLDPWD/$D/patch.diff" 2>/dev/null || git apply "$D/patch.diff" || { echo "PATCH DOES NOT APPLY: $D"; exit 9; }
+git apply "/verif/$D/patch.diff" || { echo "PATCH DOES NOT APPLY: $D"; exit 9; }
 cd /verif
 ./check "$PROP" "$TIER" > /tmp/seedtest.$$.log 2>&1
 rc=$?
